@@ -541,3 +541,48 @@ func TestC12Arity(t *testing.T) {
 }
 
 func init() { reg("C12.macro", checkC12) }
+
+// ---- library names made of the words of the import tags ---------------------------------------------------
+
+type C12LibNameCase struct {
+	Name BStr `json:"name"`
+	Form int  `json:"form"` // 0 import as, 1 from import, 2 from import as alias, 3 import as + from in one template
+}
+
+func checkC12LibName(c C12LibNameCase) error {
+	name := string(c.Name)
+	var src string
+	switch c.Form % 4 {
+	case 0:
+		src = "{% import '" + name + "' as l %}{{ l.m(1) }}"
+	case 1:
+		src = "{% from \"" + name + "\" import m %}{{ m(1) }}"
+	case 2:
+		src = "{% from '" + name + "' import m as z, n %}{{ z(1) }}"
+	default:
+		src = "{% import \"" + name + "\" as l %}{% from '" + name + "' import n as m %}{{ l.m(1) }}"
+	}
+	tm := map[string]string{"main": src, name: "{% macro m(x) %}<m{{ x }}>{% endmacro %}{% macro n(x) %}<n{{ x }}>{% endmacro %}"}
+	r := render(newEngine(tm), "main", nil)
+	if r.Failed() || r.Out != "<m1>" {
+		return fmt.Errorf("macro m of the library named %s reached by %s: %v, want \"<m1>\"", q(name), q(src), r)
+	}
+	return nil
+}
+
+func TestC12LibNames(t *testing.T) {
+	r := NewRec(t, "C12", "exhaustive: 14 library names that contain words of the import tags (as, import, from, with, in, blanks) x {import as, from import, from import as alias, both}; oracle: the macro renders; all cases non-trivial")
+	defer r.Flush()
+	r.SetExhaustive()
+	for _, name := range []string{"lib as x", "a as b", "as", "x as", "a import b", "import", "from lib", "from a import b", "with", "a in b", "two  blanks", "lib.twig", "sub/lib", "a as b import c"} {
+		for form := 0; form < 4; form++ {
+			c := C12LibNameCase{Name: BStr(name), Form: form}
+			r.Case(fmt.Sprint(name, form), true, c)
+			if err := checkC12LibName(c); err != nil {
+				r.FailEnumKey(t, "C12.libname", name, c, err)
+			}
+		}
+	}
+}
+
+func init() { reg("C12.libname", checkC12LibName) }
